@@ -355,9 +355,41 @@ def quiet_call(fn, *a):
         sys.stderr = old
 
 
+class CaseTimeout(BaseException):
+    pass
+
+
+class _CaseTimer(object):
+    """per-case watchdog for Python-level loops (a seeded change can make a search or a mutator loop forever);
+    C-level hangs (regular expressions) are handled by the properties that can meet them (C03's worker process)"""
+
+    def __init__(self):
+        self.seconds = float(os.environ.get('AHP_CASE_TIMEOUT', '30'))
+
+    def __enter__(self):
+        import signal
+        import threading
+        self.active = threading.current_thread() is threading.main_thread() and self.seconds > 0
+        if self.active:
+            def on_alarm(signum, frame):
+                raise CaseTimeout('case exceeded %.0f s' % self.seconds)
+            self.old = signal.signal(signal.SIGALRM, on_alarm)
+            signal.setitimer(signal.ITIMER_REAL, self.seconds)
+
+    def __exit__(self, *a):
+        if self.active:
+            import signal
+            signal.setitimer(signal.ITIMER_REAL, 0)
+            signal.signal(signal.SIGALRM, self.old)
+        return False
+
+
 def safe_impl(check, data):
     try:
-        return quiet_call(check.impl, data)
+        with _CaseTimer():
+            return quiet_call(check.impl, data)
+    except CaseTimeout:
+        return '(impl-timeout)'
     except DebuggerEntered as e:
         return '(impl-debugger)'
     except RecursionError:
@@ -368,7 +400,10 @@ def safe_impl(check, data):
 
 def safe_oracle(check, data):
     try:
-        return quiet_call(check.oracle, data)
+        with _CaseTimer():
+            return quiet_call(check.oracle, data)
+    except CaseTimeout as e:
+        return ('timeout', 'the property oracle did not finish: %s' % e)
     except DebuggerEntered:
         return ('debugger', 'pdb.set_trace() reached')
     except Exception as e:
